@@ -832,8 +832,18 @@ pub fn c14(r: &mut Rng, out: &mut Out, n: usize) {
         );
         let origin = match r.below(5) {
             0 => inside,
-            1 => Point3D::new(bx.min.x, r.nice(scale), r.nice(scale)), // on a face plane
-            2 => Point3D::new(r.nice(scale), bx.max.y, r.nice(scale)),
+            1 | 2 => {
+                // exactly on one of the six face planes (any axis, either side); the other two coordinates anywhere or
+                // inside the box's extent (a ray lying in a face plane, or leaving through it)
+                let mut o = if r.bool() { inside } else { Point3D::new(r.nice(scale), r.nice(scale), r.nice(scale)) };
+                let hi = r.bool();
+                match r.below(3) {
+                    0 => o.x = if hi { bx.max.x } else { bx.min.x },
+                    1 => o.y = if hi { bx.max.y } else { bx.min.y },
+                    _ => o.z = if hi { bx.max.z } else { bx.min.z },
+                }
+                o
+            }
             _ => r.pt(2. * scale),
         };
         let mut d = match r.below(4) {
@@ -853,10 +863,12 @@ pub fn c14(r: &mut Rng, out: &mut Out, n: usize) {
         // exact zeros in the direction
         for k in 0..3 {
             if r.below(5) == 0 {
+                // either sign of zero on every axis (the reciprocal is +inf or -inf)
+                let z = if r.bool() { 0. } else { -0.0 };
                 match k {
-                    0 => d.x = 0.,
-                    1 => d.y = 0.,
-                    _ => d.z = 0.,
+                    0 => d.x = z,
+                    1 => d.y = z,
+                    _ => d.z = z,
                 }
             }
         }
